@@ -367,7 +367,13 @@ func (c *Client) getCached(cacheDir string) (*Response, error) {
 	// Get last HTTP request time to calculate cache age
 	lastRefresh, err := c.readLastRefresh(cacheDir)
 	if err != nil {
-		return nil, fmt.Errorf("failed to read last refresh time: %w", err)
+		// The refresh time is stored after the config itself; it is missing
+		// or unreadable when e.g. the process was interrupted in between. The
+		// cached config is still valid: treat it as stale (zero fetch time),
+		// so that a refresh is attempted and the cached config is used if the
+		// refresh fails, instead of dropping to the fallback.
+		log.Debugf("failed to read last refresh time, treating cache as stale: %v", err)
+		lastRefresh = time.Time{}
 	}
 
 	fetchTime := lastRefresh
